@@ -45,6 +45,12 @@ structure Oracles where
   -- ---- added for C08 (additive; defaults keep existing structure instances valid)
   toFloat : Bytes → Rat := fun _ => 0       -- `toFloat64OrZero(s)`: the number a text denotes (0 when it is none)
   cityHash : List (Bytes × Bytes) → Int := fun _ => 0   -- `cityHash64(map)`
+  -- ---- added for the SQL-side LogQL stages (C07: json with parameters, regexp); additive
+  /-- `if(JSONType(doc, path…) == 'String', JSONExtractString(doc, path…), JSONExtractRaw(doc, path…))`: document, path -/
+  jsonField : Bytes → List JArg → Bytes := fun _ _ => []
+  /-- `arrayMap(x -> x[length(x)], extractAllGroupsHorizontal(subject, pattern))`: pattern, subject ↦ for every capture
+      group of the pattern the text it captured in the LAST match ('' when there is none) -/
+  reCaps : Bytes → Bytes → List Bytes := fun _ _ => []
 
 def boolVal (x : Bool) : Val := .int (if x then 1 else 0)
 def Val.truthy : Val → Bool
@@ -135,6 +141,28 @@ def divVal (a b : Val) : Val :=
   | some x, some y => if y = 0 then .null else .rat (x / y)
   | _, _ => .null
 
+/-! ### maps (C07: the labels column rewritten by parsers and `drop`) -/
+/-- a Map column; the column of an unmatched ANY LEFT JOIN row has its type's default, the empty map -/
+def asMap : Val → List (Bytes × Bytes)
+  | .map m => m
+  | _ => []
+
+/-- `mapUpdate(a, b)`: the entries of `a` whose key `b` does not have, then all entries of `b` -/
+def mapUpdate (a b : List (Bytes × Bytes)) : List (Bytes × Bytes) :=
+  a.filter (fun p => !(b.any (fun q => q.1 == p.1))) ++ b
+
+/-- the lambda of `mapDropFilter`: `k != 'a' and (k, v) != ('b', 'c') and …` -/
+def dropKeeps (ps : List (Bytes × Bytes)) (kv : Bytes × Bytes) : Bool :=
+  ps.all (fun p => if p.2.isEmpty then kv.1 != p.1 else !(kv.1 == p.1 && kv.2 == p.2))
+
+/-- `mapFromArrays(arrayFilter((x,y) -> x != '' AND y != '', names, vals), arrayFilter(…, vals, names))` -/
+def regexPairs (names vals : List Bytes) : List (Bytes × Bytes) :=
+  (names.zip vals).filter (fun p => !p.1.isEmpty && !p.2.isEmpty)
+
+def pairLe (a b : Bytes × Bytes) : Bool := decide (a.1 < b.1) || (a.1 == b.1 && decide (a.2 ≤ b.2))
+/-- `arraySort(arrayZip(mapKeys(m), mapValues(m)))` -/
+def sortPairs (m : List (Bytes × Bytes)) : List (Bytes × Bytes) := sortBy pairLe m
+
 /-- tables already evaluated (WITH sub-queries), by alias -/
 abbrev Env := List (Alias × Table)
 
@@ -182,6 +210,9 @@ def evalE (o : Oracles) (env : Env) (r : Row) : Expr → Val
     | "toFloat64OrZero", [.null] => .rat 0     -- an absent column of an unmatched ANY LEFT JOIN row has its type's default ('' / {})
     | "cityHash64", [.map m] => .int (o.cityHash m)
     | "length", [.str s] => .int s.length
+    -- ---- added for C07 (labels column of the SQL-side pipeline stages)
+    | "mapUpdate", [.map a, .map b] => .map (mapUpdate a b)
+    | "mapUpdate", [.null, .map b] => .map b
     | _, _ => .null
   | .orderBy e _ => evalE o env r e
   | .sub _ => .null
@@ -211,6 +242,16 @@ def evalE (o : Oracles) (env : Env) (r : Row) : Expr → Val
   | .topkSlice _ _ _ => .null        -- an aggregate: only meaningful per group (`Sql.SemAgg`)
   | .arrayJoinFrom _ _ => .null      -- a FROM clause (`Sql.SemAgg.sourceRowsA`)
   | .fixedLit units scale => .rat ((units : Int) / ((10 ^ scale : Nat) : Int))   -- the number the literal denotes
+  | .jsonMap ps => match r.get "string" with
+    | .str s => .map (ps.map (fun p => (p.1, o.jsonField s p.2)))
+    | _ => .null
+  | .regexMap labels re _ => match r.get "string" with
+    | .str s => .map (regexPairs labels (o.reCaps re s))
+    | _ => .null
+  | .mapDrop m ps => .map ((asMap (evalE o env r m)).filter (dropKeeps ps))
+  | .labelsFp => match r.get "labels" with
+    | .map m => .int (o.cityHash (sortPairs m))
+    | _ => .null
 def evalEs (o : Oracles) (env : Env) (r : Row) : List Expr → List Val
   | [] => []
   | e :: es => evalE o env r e :: evalEs o env r es
